@@ -790,6 +790,13 @@ impl LdapConnAsync {
                     #[cfg(ldap3_verif)]
                     self.verif.branch(1);
                     if let Some((id, op, tag, controls, tx)) = op_tuple {
+                        if tx.is_closed() && matches!(op, LdapOp::Single | LdapOp::Search(_)) {
+                            // The caller gave up (timed out) before we got to the request, and its
+                            // ID scrub may already have been processed; don't register the operation.
+                            let mut msgmap = self.msgmap.lock().expect("msgmap mutex (stale op)");
+                            msgmap.1.remove(&id);
+                            continue;
+                        }
                         if let LdapOp::Search(ref search_tx) = op {
                             self.searchmap.insert(id, search_tx.clone());
                         }
